@@ -38,7 +38,8 @@ static void skip(World &w) { if (w.stats) w.stats->c[CT_OPS_SKIPPED]++; }
 static void state(World &w, uint32_t s) { if (w.stats) w.stats->states.insert(s); }
 // sim/ccaller.c: the same calls made by a C caller that holds its objects behind `void *` handles
 extern "C" { void sim_c_hash_free(void *); void sim_c_hmac_free(void *); void sim_c_hkdf_free(void *); void sim_c_prng_free(void *); void sim_c_clean(void *, size_t); extern const int sim_c_handles_opaque; }
-static inline bool c_handle(const Op &op) { return sim_c_handles_opaque >= 0 && ((op.dseed >> 7) & 1) != 0; }   // plan data: this call is made by the C caller
+static inline bool c_handle_(World &w, const Op &op) { bool y = sim_c_handles_opaque >= 0 && ((op.dseed >> 7) & 1) != 0; if (y && w.stats) w.stats->c[CT_F_C_HANDLE]++; return y; }
+#define c_handle(op) c_handle_(w, (op))   // plan data: this call is made by the C caller
 static bool all_zero(const uint8_t *p, size_t n) { for (size_t i = 0; i < n; i++) if (p[i]) return false; return true; }
 static std::string u2s(uint64_t v) { return std::to_string((unsigned long long)v); }
 
